@@ -111,7 +111,11 @@ def is_path_ignored(
         for pattern in _IGNORE_DIR_PATTERNS:
             if pattern.match(name):
                 return True
-        if not include_meson_subprojects:
+        # The project's own directory may happen to be called 'subprojects';
+        # that does not make the directories directly inside it Meson
+        # subprojects, however the root was spelled.
+        in_root = bool(vcs_strategy) and path.parent == vcs_strategy.root
+        if not include_meson_subprojects and not in_root:
             for pattern in _IGNORE_MESON_PARENT_DIR_PATTERNS:
                 if pattern.match(parent_dir):
                     _LOGGER.info(
